@@ -109,7 +109,7 @@ class Gen:
 
     def stmt(self, depth, ind, callable_):
         t = "\t" * ind
-        kinds = ["expr", "assign", "decl", "declDoc", "incdec", "send", "defer", "callfn", "lam", "multiline"]
+        kinds = ["expr", "assign", "decl", "declDoc", "incdec", "send", "callfn", "lam", "multiline"]
         if depth > 0:
             kinds += ["if", "ifInit", "ifElse", "ifChain", "for3", "forNoInit", "forNoPost", "forCond", "forEver",
                       "range", "rangeNoVar", "phrase", "phraseIf", "rangeExpr", "rangeExprIf", "switch", "switchInit",
@@ -141,8 +141,6 @@ class Gen:
         if k == "send":
             v = self.var("ch")
             return [t + "%s := make(chan int, 1)" % v, t + "%s <- %s" % (v, self.mark()), t + "<-%s" % v]
-        if k == "defer":
-            return [t + "defer " + self.mark()]
         if k == "callfn":
             if not callable_:
                 return [t + self.mark()]
@@ -408,8 +406,11 @@ L:
 		mark(12)
 		break L
 	}
-	defer mark(13)
+	defer func() {
+		mark(13)
+	}()
 	y, z = mark(15), mark(16)
+	_ = z
 	call(mark(17), func() {
 		mark(18)
 	})
@@ -521,6 +522,7 @@ def run(ctx):
     ctx.prove("C09")
     model = ctx.model("c09")
     impl = ctx.harness("c09")
+    ctx.log("model and harness built")
 
     root = os.path.join(ctx.scratch, "c09run")
     os.makedirs(root)
@@ -539,11 +541,13 @@ def run(ctx):
     bypkg = {c["pkg"]: c for c in cases}
 
     inp = "\n".join(json.dumps(c) for c in cases) + "\n"
-    rc, out = ctx.run([impl, "-root", root], input=inp, timeout=300)
+    moddir = os.path.join(vlib.BUILD, "harness_" + vlib.sha(vlib.REPO)) if vlib.PRIVATE else vlib.HARNESS
+    rc, out = ctx.run([impl, "-root", root, "-moddir", moddir], input=inp, timeout=300)
     if rc != 0:
         ctx.broken("correspondence(c09:harness)", "rc=%d %s" % (rc, out[-500:]))
         return
     res = [json.loads(l) for l in out.splitlines() if l.startswith("{")]
+    ctx.log("compiled %d packages with cl.NewPackage" % len(res))
     if len(res) != len(cases):
         ctx.broken("correspondence(c09:harness)", "results=%d cases=%d" % (len(res), len(cases)))
         return
@@ -600,10 +604,13 @@ def run(ctx):
     open(os.path.join(root, "driver.go"), "w").write(DRIVER_GO % ("\n".join(imports), "\n".join(calls)))
     if "main" not in models:
         open(os.path.join(root, "main.go"), "w").write("package main\n\nfunc main() {}\n")
-    rc, bout = ctx.run(["go", "build", "-o", os.path.join(root, "prog"), "."], cwd=root, timeout=600)
+    # no inlining in the generated packages: runtime.FuncForPC(pc).Entry() is the entry of the OUTERMOST function
+    # for an inlined call, which would make the function-entry probe meaningless
+    rc, bout = ctx.run("go build -gcflags=c09run/...=-l -o prog . 2>&1", cwd=root, timeout=600, mem_kb=16000000)
     if rc != 0:
         ctx.broken("correspondence(c09:go build)", "the emitted Go does not build: " + bout[-1500:])
         return
+    ctx.log("go build of the emitted packages done")
     rc, rout = ctx.run([os.path.join(root, "prog")], cwd=root, timeout=120)
     if rc != 0:
         ctx.broken("correspondence(c09:run)", "rc=%d %s" % (rc, rout[-500:]))
@@ -623,7 +630,7 @@ def run(ctx):
         obs.setdefault((pkg, mid), (fil, line))
         entries.setdefault((pkg, fname.split("/")[-1]), (efile, eline))
     rt_cases, rt_impl, rt_model = [], [], []
-    nfirst = 0
+    nfirst = nsecond = 0
     failing = []
     for r in okres:
         pkg, m = r["pkg"], models[r["pkg"]]
@@ -635,9 +642,12 @@ def run(ctx):
             if p != pkg:
                 continue
             seen = "%s:%s" % (fidx.get(fil, "?" + fil), line)
-            rt_cases.append("%s mark(%s)" % (pkg, mid))
-            rt_impl.append(seen)
-            rt_model.append(m["P"].get(mid, "<no line tagged with this id>"))
+            if mid in m["P"]:      # marks that are not the first marked call of their line have no model line
+                rt_cases.append("%s mark(%s)" % (pkg, mid))
+                rt_impl.append(seen)
+                rt_model.append(m["P"][mid])
+            else:
+                nsecond += 1
             want = r["first"].get(mid)
             if want is not None:
                 nfirst += 1
@@ -684,11 +694,12 @@ def run(ctx):
               rule="%d deterministic packages (regression + known-finding inputs) + %d seeded packages (1-2 files, 1-6 functions/methods "
                    "each, nesting depth <= 3, relbase in {pkg,root,abs}) + 1 seeded main package with a shadow entry; all in one go build "
                    "and one run; evaluations = emitted functions compared structurally (%d, %d text lines, %d directives) + runtime "
-                   "positions compared (%d executed marks / function entries, %d of them checked by the direct oracle); "
+                   "positions compared (%d executed marks / function entries, %d of them checked by the direct oracle; %d executed marks "
+                   "that are not the first marked call of their text line are not compared); "
                    "non-trivial = distinct executed mark or function entry. Seeded packages only contain backward "
                    "references (forward references are the known-finding dimension, explored by the deterministic set); "
-                   "not generated: go statements, goto, init functions, grouped declarations, package-level initialisers with calls"
-                   % (ndet, len(cases) - ndet - 1, len(shape_cases), nlines, ndirs, len(rt_cases), nfirst),
+                   "not generated: go statements, `defer mark(k)` (the runtime attributes a deferred call to the function's return point), goto, init functions, grouped declarations, package-level initialisers with calls"
+                   % (ndet, len(cases) - ndet - 1, len(shape_cases), nlines, ndirs, len(rt_cases), nfirst, nsecond),
               generator_template_histogram=dict(sorted(hist.items())), statement_kind_histogram=dict(sorted(stmt_hist.items())),
               harness_status=status_hist)
     ctx.trust("modelled, not verified: cl/stmt.go (commentStmt, commentStmtEx, commentFunc, compileStmt and every compile*Stmt as far as "
